@@ -58,6 +58,9 @@ for id in sorted(os.listdir('/verif/seeded')):
         r6 = json.load(open('/verif/records/round6_breaking_first_pass.json'))['first_pass']
         for k6, v6 in r6.items():
             fp[k6] = dict(v6, round=6)
+        r7 = json.load(open('/verif/records/round7_breaking_first_pass.json'))['first_pass']
+        for k7, v7 in r7.items():
+            fp[k7] = dict(v7, round=7)
     except Exception:
         fp = {}
     if id in fp:
